@@ -29,7 +29,7 @@
    are decided by the byte-exact correspondence run and the HTML-parsing oracle
    (see DESIGN.md). *)
 From Coq Require Import String Sorting.Permutation.
-From YV Require Import PyBase ShellMap Html HtmlProofs HtmlRegion HtmlLines HtmlCells HtmlNumbers.
+From YV Require Import PyBase ShellMap Html HtmlProofs HtmlRegion HtmlLines HtmlCells HtmlNumbers Tables.
 
 (* (1) protect_html is a character-wise map (the seven substitutions do not
    interfere), hence a homomorphism *)
@@ -200,6 +200,12 @@ Theorem C16_region_numbered : forall st_ stu number_style,
                    (combine (map (fun r => (render_atoms r, true)) cs) nums)).
 Proof. exact region_out_numbered. Qed.
 Print Assumptions C16_region_numbered.
+
+(* table obligation: the style strings of /repo's genhtml.py (regenerated on
+   every run) meet the premise of the region theorems *)
+Example C16_styles_of_repo :
+  no_lt sh_highlight_style = true /\ no_lt sh_highlight_style_unsure = true.
+Proof. vm_compute. split; reflexivity. Qed.
 
 (* non-vacuity: a two-line stretch with a highlight across the line break *)
 Example C16_cells_example :
